@@ -25,3 +25,8 @@ claim("C12", "exploration", "bounded-exhaustive enumeration of networks x (memor
       "For every compiled case the OfflineMemoryAllocation offsets, tensor sizes and operator order of the output file give live intervals and extents; pairwise live overlap, alignment to --cpu-tensor-alignment, scratch tensor at offset 0 containing all custom-op operands and the whole region-1 footprint, fast-scratch aliasing/cache containment and the summary CSV figures are checked.",
       "Scratch tensors are containers (A8); in-place aliasing inside one Ethos-U operator is delegated to C03; liveness is defined by the output operator order.",
       "DESIGN.md section 4 C12")
+
+claim("C04", "model_checking", "explicit-state BFS of an asynchronous NPU execution model over command streams emitted by the real generator (unit op lists and compiled networks)",
+      "The asynchronous machine (DMA queue, kernel queue, in-order job start/retire, BLOCKDEP window, issue stalls) is explored exhaustively for every op list of length <= 2 (thorough 3) over ~60 ops on aliasing buffers through the public generator on U55-128 and U65-256, and for every stream of the network sweep decoded from the output file; in every reachable state no DMA/kernel-op pair and no pair of in-flight block jobs may conflict (exact per-job footprints).",
+      "The hardware model is the one the property statement names, written down in DESIGN.md C04; it is deliberately weak where unsure (no WAR/WAW between pipelined kernel jobs, REDUCE_SUM and convolutions traverse the IFM in depth slices). Streams are bound to the implementation by decoding the emitted words; decoded op sequences are matched 1:1 with the NpuOperation lists (traces_validated_against_impl).",
+      "DESIGN.md section 4 C04")
